@@ -893,8 +893,10 @@ pub fn regime_tags(spec: &DistSpec) -> Vec<String> {
                 t.push("triangular:shifted".into());
             }
         }
-        Family::Zipf if p.len() == 2 && spec.scalar == Scalar::F32 && (p[1] - 1.0).abs() <= 0.02 && p[1] != 1.0 && p[0] >= 1e4 => {
-            t.push("zipf32:|s-1|<=0.02&n>=1e4".into())
+        // inv_cdf raises to the power q = 1/(1-s) in f32: relative error |q| eps in x, i.e. an
+        // absolute error of n |q| eps near n, visible in the unit cells once it reaches ~0.03
+        Family::Zipf if p.len() == 2 && spec.scalar == Scalar::F32 && p[1] != 1.0 && p[0] / (p[1] - 1.0).abs() >= 5e5 => {
+            t.push("zipf32:n/|s-1|>=5e5".into())
         }
         Family::StudentT if p.len() == 1 && p[0] == 1.0 => t.push("dof=1".into()),
         Family::FisherF if p.len() == 2 && (p[0] == 1.0 || p[1] == 1.0) => t.push("dof=1".into()),
